@@ -32,6 +32,15 @@ template <class T> static void shrt44 (Gen<T>& g, int it)
     Matrix44<T> M = compose44<T> (g, mode, s0, h0, r0, t0);
     // the whole linear block at a magnitude whose squares overflow / underflow (an exact power of two: the scale factor only)
     if (mode < 4 && it % 15 >= 10) { T k = (T) std::ldexp (1.0, (it % 15 < 13 ? 1 : -1) * (sizeof (T) == 4 ? 70 : 520)); for (int i = 0; i < 3; ++i) for (int j = 0; j < 3; ++j) M[i][j] *= k; }
+    if (it % 20 == 7)
+    {   // exactly singular WITHOUT a zero row: the third row repeats the first (small integers, so nothing is rounded away);
+        // logged as mode 4: degenerate, to be reported by every entry point
+        mode = 4;
+        for (int i = 0; i < 3; ++i) for (int j = 0; j < 3; ++j) M[i][j] = (T) g.rng.range (-4, 4);
+        if (M[0][0] == 0 && M[0][1] == 0 && M[0][2] == 0) M[0][0] = 1;
+        if (M[1][0] == 0 && M[1][1] == 0 && M[1][2] == 0) M[1][1] = 2;
+        for (int j = 0; j < 3; ++j) M[2][j] = M[0][j];
+    }
     Vec3<T> s, h, r, tr;
     bool ok = extractSHRT (M, s, h, r, tr, false);
     Matrix44<T> S, H, R, Tm;
@@ -114,6 +123,12 @@ template <class T> static void shrt33 (Gen<T>& g, int it)
     S.setScale (s0); H.setShear (h0); R.setRotation (r0); Tm.setTranslation (t0);
     Matrix33<T> M = S * H * R * Tm;
     if (mode < 4 && it % 15 >= 10) { T k = (T) std::ldexp (1.0, (it % 15 < 13 ? 1 : -1) * (sizeof (T) == 4 ? 70 : 520)); for (int i = 0; i < 2; ++i) for (int j = 0; j < 2; ++j) M[i][j] *= k; }
+    if (it % 20 == 7)
+    {   // exactly singular without a zero row: the second row is twice the first
+        mode = 4;
+        M[0][0] = (T) g.rng.range (1, 4); M[0][1] = (T) g.rng.range (-4, 4);
+        M[1][0] = 2 * M[0][0]; M[1][1] = 2 * M[0][1];
+    }
     Vec2<T> s, tr; T h = 0, r = 0;
     bool ok = extractSHRT (M, s, h, r, tr, false);
     S.setScale (s); H.setShear (h); R.setRotation (r); Tm.setTranslation (tr);
